@@ -3,7 +3,7 @@
     sumbool, sumor; no Extract Constant).  N / Z / nat stay the extracted inductive datatypes. *)
 From Coq Require Extraction.
 From Coq Require Import ExtrOcamlBasic.
-From HC Require Import Base.HBytes Model.Tlv8 Model.Storage Model.Framing Model.ConnRead Model.ConnWrite Model.Charac Model.Hap Gen.CatalogGen Model.Catalog Model.Ids.
+From HC Require Import Base.HBytes Model.Tlv8 Model.Storage Model.Framing Model.ConnRead Model.ConnWrite Model.Charac Model.Hap Gen.CatalogGen Model.Catalog Model.Ids Model.Pin Model.Config Gen.Extracted.
 Extraction Language OCaml.
 Set Extraction KeepSingleton.
 Separate Extraction
@@ -18,4 +18,6 @@ Separate Extraction
   Charac.cstep Charac.well_typed Z.opp Z.div Z.modulo
   Hap.step Hap.fixed Hap.store_get Hap.empty_world Hap.get_conn
   CatalogGen.char_ctors CatalogGen.svc_ctors Catalog.svc_type Catalog.svc_char_types
-  Ids.add_accessory Ids.instance_ids Ids.empty_container.
+  Ids.add_accessory Ids.instance_ids Ids.empty_container
+  Pin.validate_pin Pin.xhm_of_pin Pin.xhm_decode Config.start Config.pair Config.unpair Config.discoverable_now
+  Config.same_hash_input Config.empty_disk Extracted.invalid_pins.
